@@ -14,7 +14,12 @@ Inductive case :=
    observed: each frame returned with the number of Reads performed so far, and how the loop ended *)
 | KStream (wf : bool) (frames : list bdesc) (reads : list bdesc) (got : list (bdesc * N)) (e : end_obs)
 (* BindConnection reply: stream cut into reads *)
-| KBind (reads : list bytes) (res : bind_obs).
+| KBind (reads : list bytes) (res : bind_obs)
+(* bulk: a long stream of well-formed frames (up to the maximum frame sizes, megabytes in all) delivered in large reads
+   (whole stream at once, 64 KiB reads, ...). Too large to evaluate inside Coq: the harness compares the frames returned with
+   the frames it built - which is what the model returns for EVERY segmentation (C10_frames, C10_segmentation_independent) - and reports
+   whether they are equal and how the loop ended *)
+| KBulk (nframes total maxread : N) (equal : bool) (e : end_obs).
 
 Fixpoint expand_all (l : list bdesc) : option (list bytes) :=
   match l with
@@ -127,6 +132,7 @@ Definition run (c : case) : verdict :=
       | BindShort, OBindOther | BindNotStun, OBindOther | BindShort, OBindNotStun | BindNotStun, OBindShort => (false, true)
       | _, _ => (false, false)
       end
+  | KBulk _ _ _ equal e => let ok := equal && match e with OEndEOF => true | _ => false end in (ok, ok)
   end.
 
 Definition bad_cases (base : N) (cs : list case) := bad_from run base cs.
